@@ -5,4 +5,10 @@ CHECKS = {
         "from the 16 persistent states is executed as a real btokPwdTransition call under ASan; the monitor checks the six "
         "rules of the statement on each edge, so every finite history's verdict is observed. Random long histories cross-check.",
    note="Trusts the monitor's reading of the rules (DESIGN.md C20) and that the function is a pure function of (state, event)."),
+ "C18": dict(level="exploration",
+   technique="ThreadSanitizer on a multi-threaded stress harness + value monitors (exactly-once, permutation, shadow refcount, duplicate-block scan) over many fresh processes with seeded yields",
+   text="Hundreds (quick) to thousands (thorough) of fresh processes race 2..16 threads on the first rngCreate, on rngStepR/StepR2/Rekey/IsValid/Close "
+        "programs, on once-triggers and on one atomic counter, with seeded yields at hook points between critical sections and CPU-affinity "
+        "masks; TSan reports with a bee2 frame and the harness's value monitors are the oracle; evidence counts distinct interleaving signatures.",
+   note="Schedules are sampled, not enumerated; TSan generalises only over accesses that occurred; TSan build uses -DNDEBUG; x86 only."),
 }
